@@ -8,7 +8,7 @@ import "fmt"
 // correctly - never silently wrong.
 
 // LimitKinds lists the generated shapes.
-var LimitKinds = []string{"locals", "params", "free", "free-returned", "free-nested", "selectors", "array-literal", "long-if", "long-loop", "long-logical", "consts-closure", "globals-selstore"}
+var LimitKinds = []string{"locals", "params", "free", "free-returned", "free-nested", "selectors", "array-literal", "long-if", "long-loop", "long-logical", "consts-closure", "globals-selstore", "map-literal"}
 
 // LimitSizes are the boundary sizes per kind.
 func LimitSizes(kind string) []int {
@@ -29,6 +29,9 @@ func LimitSizes(kind string) []int {
 		return []int{254, 255, 256, 257}
 	case "array-literal":
 		return []int{255, 256, 257, 1000}
+	case "map-literal":
+		// the MAP operand counts keys and values: it passes one byte at 128 pairs
+		return []int{127, 128, 129, 300}
 	}
 	return nil
 }
@@ -154,6 +157,15 @@ func Limits(kind string, n int) *Program {
 		main = append(main, Def("r", I("m")), &For{Init: Def("j", N("0")), Cond: B("<", I("j"), N(fmt.Sprint(n))), Post: &IncDec{X: I("j"), Op: "++"},
 			Body: []Stmt{Set(I("r"), &Sel{X: I("r"), Name: "k"})}}, Def("out", I("r")), Set(I("m"), Undef()), Set(I("cur"), Undef()), Set(I("r"), Undef()))
 		return &Program{Main: main}
+	case "map-literal":
+		m := &MapLit{}
+		for i := 0; i < n; i++ {
+			m.Keys = append(m.Keys, fmt.Sprintf("k%d", i))
+			m.Vals = append(m.Vals, N(fmt.Sprint(i)))
+		}
+		return &Program{Main: []Stmt{Def("a", m),
+			Def("out", &ArrayLit{Elems: []Expr{&Sel{X: I("a"), Name: "k0"}, &Sel{X: I("a"), Name: fmt.Sprintf("k%d", n-1)}, C(I("len"), I("a"))}}),
+			Set(I("a"), Undef())}}
 	case "array-literal":
 		var elems []Expr
 		for i := 0; i < n; i++ {
